@@ -331,6 +331,34 @@ def r7_fmt_scope(rep, facts):
                                                                              if set(got) - set(want) else 'part of the pair keeps its old spacing'), facts.loc(b))
 
 
+def r3b_conversion_flags(rep, facts):
+    R = rep.rule('C08/R3b', 'converting between the inline and the standard form gives a plain container that holds the same entries: InlineTable::into_table and Table::into_inline_table, '
+                 'evaluated on a container flagged dotted and implicit, return one that is neither (a dotted table prints only through its parent\'s body, an implicit one only through '
+                 'its children: used as an array-of-tables entry or a document root it would vanish) with the keys in the same order', floor=2)
+    from .places import PlaceInterp, MapObj, keyname, deref
+    from .rules_containers import key, fval, I
+    NONE_ = ('ctor', 'core::option::Option::None')
+    dec = lambda: ('struct', 'toml_edit::repr::Decor', {'prefix': NONE_, 'suffix': NONE_})
+    for d, ty in (('toml_edit::inline_table::InlineTable::into_table', 'toml_edit::inline_table::InlineTable'), ('toml_edit::table::Table::into_inline_table', 'toml_edit::table::Table')):
+        if not facts.has_body(d):
+            rep.incomplete(R, last_seg(d), f'`{d}` not found')
+            continue
+        b = facts.body(d)
+        f = {'items': MapObj([(key(n), ('ctor', I + 'Value', (fval(n),))) for n in ('b', 'a', 'c')]), 'decor': dec(), 'implicit': True, 'dotted': True, 'span': NONE_}
+        f.update({'preamble': ('opaque',)} if ty.endswith('InlineTable') else {'doc_position': NONE_})
+        try:
+            r = deref(PlaceInterp(Evaluator(facts), {'fmt'}).apply_fn(b, [('struct', ty, f)]))
+        except (Unanalysable, TypeError, KeyError, IndexError) as ex:
+            rep.incomplete(R, last_seg(d), f'cannot evaluate `{d}`: {ex}', facts.loc(b))
+            continue
+        st = r[2] if isinstance(r, tuple) and len(r) == 3 and r[0] == 'struct' else {}
+        items = st.get('items')
+        keys = [keyname(k) for k, _ in (items.pairs if isinstance(items, MapObj) else items or [])]
+        ok = st.get('dotted') is False and st.get('implicit') is False and keys == ['b', 'a', 'c']
+        rep.check(R, last_seg(d), ok, 'plain container, same keys', f'`{d}` of a container flagged dotted / implicit returns dotted={st.get("dotted")}, implicit={st.get("implicit")}, keys {keys}: '
+                  f'the converted table is printed only through a parent it may not have, or loses entries', facts.loc(b))
+
+
 def rules(rep, facts):
     if 'toml_edit' not in facts.crates:
         return
@@ -344,6 +372,7 @@ def rules(rep, facts):
     r8_map_summaries(rep, facts, rid='C08/R8')
     r9c_sequence_summaries(rep, facts, rid='C08/R8b')
     r3_conversions(rep, facts)
+    r3b_conversion_flags(rep, facts)
     R6 = rep.rule('C08/R6', 'sorting touches what the API documents: each of the four sort functions sorts its own entries once, recurses only into dotted '
                   'children (sub-tables with their own header keep their order), through the same function and with the same comparison', floor=8)
     from .shared import sort_recursion
